@@ -467,7 +467,7 @@ Proof. intros c b H. unfold route_controller, get_broker_or_zero. rewrite H. ref
 
 Lemma send_broker_message : forall c conns r fc b,
   route c r = Some (Ok b) -> 0 <= b_id b -> mhas Z.eqb conns (b_id b) = true ->
-  send_request c conns r fc = Sent [(TBroker (b_id b), api_of r)].
+  send_request c conns r fc = Sent [WReq (TBroker (b_id b)) (api_of r)].
 Proof.
   intros c conns r fc b H Hnn Hc. unfold send_request. rewrite H. unfold send_to, grab.
   destruct (b_id b >=? 0) eqn:E; [|lia]. rewrite Hc. reflexivity.
@@ -477,43 +477,47 @@ Lemma send_route_error : forall c conns r fc e,
   route c r = Some (Err e) -> send_request c conns r fc = Rejected [] (RejRoute e).
 Proof. intros c conns r fc e H. unfold send_request. rewrite H. reflexivity. Qed.
 
-Lemma send_group : forall c conns api g a,
-  fc_err a = 0 -> 0 <= fc_node a -> mhas Z.eqb conns (fc_node a) = true ->
-  send_request c conns (RGroup api g) (Some a) = Sent [(TControl, K_FindCoordinator); (TBroker (fc_node a), api)].
+(* the coordinator exchange, for either key type *)
+Lemma via_coordinator_ok : forall conns coord kt key api a,
+  coord kt key = Some a -> fc_err a = 0 -> 0 <= fc_node a -> mhas Z.eqb conns (fc_node a) = true ->
+  via_coordinator conns coord kt key api = Sent [WFind kt key; WReq (TBroker (fc_node a)) api].
 Proof.
-  intros c conns api g a He Hnn Hc. unfold send_request. cbn [route]. rewrite He. cbn [Z.eqb negb].
+  intros conns coord kt key api a Hk He Hnn Hc. unfold via_coordinator. rewrite Hk, He. cbn [Z.eqb negb].
   unfold send_to, grab. destruct (fc_node a >=? 0) eqn:E; [|lia]. rewrite Hc. reflexivity.
 Qed.
 
-Lemma send_txn : forall c conns api t a,
-  fc_err a = 0 -> 0 <= fc_node a -> mhas Z.eqb conns (fc_node a) = true ->
-  send_request c conns (RTxn api t) (Some a) = Sent [(TControl, K_FindCoordinator); (TBroker (fc_node a), api)].
+Lemma via_coordinator_unknown_broker : forall conns coord kt key api a,
+  coord kt key = Some a -> fc_err a = 0 -> 0 <= fc_node a -> mhas Z.eqb conns (fc_node a) = false ->
+  via_coordinator conns coord kt key api = Rejected [WFind kt key] RejBrokerNotAvailable.
 Proof.
-  intros c conns api g a He Hnn Hc. unfold send_request. cbn [route]. rewrite He. cbn [Z.eqb negb].
+  intros conns coord kt key api a Hk He Hnn Hc. unfold via_coordinator. rewrite Hk, He. cbn [Z.eqb negb].
   unfold send_to, grab. destruct (fc_node a >=? 0) eqn:E; [|lia]. rewrite Hc. reflexivity.
 Qed.
 
-Lemma send_coordinator_unknown_broker : forall c conns api g a,
-  fc_err a = 0 -> 0 <= fc_node a -> mhas Z.eqb conns (fc_node a) = false ->
-  send_request c conns (RGroup api g) (Some a) = Rejected [(TControl, K_FindCoordinator)] RejBrokerNotAvailable
-  /\ send_request c conns (RTxn api g) (Some a) = Rejected [(TControl, K_FindCoordinator)] RejBrokerNotAvailable.
+Lemma via_coordinator_error : forall conns coord kt key api a,
+  coord kt key = Some a -> fc_err a <> 0 ->
+  via_coordinator conns coord kt key api = Rejected [WFind kt key] (RejCoordinatorError (fc_err a)).
 Proof.
-  intros c conns api g a He Hnn Hc. unfold send_request. cbn [route]. rewrite He. cbn [Z.eqb negb].
-  unfold send_to, grab. destruct (fc_node a >=? 0) eqn:E; [|lia]. rewrite Hc. split; reflexivity.
+  intros conns coord kt key api a Hk He. unfold via_coordinator. rewrite Hk.
+  destruct (fc_err a =? 0) eqn:E; [apply Z.eqb_eq in E; contradiction|]. reflexivity.
 Qed.
 
-(* a find-coordinator error fails the request; nothing is sent after the lookup *)
-Lemma send_coordinator_error : forall c conns api g a,
-  fc_err a <> 0 ->
-  send_request c conns (RGroup api g) (Some a) = Rejected [(TControl, K_FindCoordinator)] (RejCoordinatorError (fc_err a))
-  /\ send_request c conns (RTxn api g) (Some a) = Rejected [(TControl, K_FindCoordinator)] (RejCoordinatorError (fc_err a)).
-Proof.
-  intros c conns api g a He. unfold send_request. cbn [route].
-  destruct (fc_err a =? 0) eqn:E; [apply Z.eqb_eq in E; contradiction|]. split; reflexivity.
-Qed.
+Lemma via_coordinator_failed : forall conns coord kt key api,
+  coord kt key = None ->
+  via_coordinator conns coord kt key api = Rejected [WFind kt key] RejCoordinatorLookup.
+Proof. intros conns coord kt key api Hk. unfold via_coordinator. rewrite Hk. reflexivity. Qed.
+
+(* a GroupMessage looks up (Group, m.Group()), a TransactionalMessage (Transaction, m.Transaction()) *)
+Lemma send_group_is : forall c conns coord api g,
+  send_request c conns (RGroup api g) coord = via_coordinator conns coord KT_Group g api.
+Proof. reflexivity. Qed.
+
+Lemma send_txn_is : forall c conns coord api t,
+  send_request c conns (RTxn api t) coord = via_coordinator conns coord KT_Txn t api.
+Proof. reflexivity. Qed.
 
 Lemma send_other : forall c conns api fc,
-  send_request c conns (ROther api) fc = Sent [(TControl, api)].
+  send_request c conns (ROther api) fc = Sent [WReq TControl api].
 Proof. intros. reflexivity. Qed.
 
 (* ================================================================== *)
@@ -692,13 +696,71 @@ Proof. intros. cbn [pool_step fst]. eapply update_error_keeps. eassumption. Qed.
 Lemma round_trip_blocked : forall q fc, round_trip pool_init q fc = RTBlocked.
 Proof. reflexivity. Qed.
 
-(* ---- discover: a refresh is always enabled ---- *)
-Lemma discover_refresh_enabled : forall ph,
-  match ph with
-  | DWaiting => discover_step ph DTimer = Some (DFetching false) /\ discover_step ph DWake = Some (DFetching true)
-  | DFetching n => discover_step ph DDone = Some DWaiting
-  end.
-Proof. destruct ph; cbn; auto. Qed.
+(* ---- discover: the refresh loop ---- *)
+(* from the select both the timer and a wake-up start a refresh, whatever happened before *)
+Lemma discover_refresh_enabled : forall s,
+  d_phase s = DWaiting ->
+  (exists s1, discover_step s DTimer = Some s1 /\ d_phase s1 = DFetching false /\ d_pool s1 = d_pool s)
+  /\ (exists s2, discover_step s DWake = Some s2 /\ d_phase s2 = DFetching true /\ d_pool s2 = d_pool s).
+Proof.
+  intros s H. unfold discover_step. rewrite H. split; eexists; (split; [reflexivity|]); cbn; auto.
+Qed.
+
+(* only the cancellation of the pool's context ends the loop *)
+Lemma discover_stops_only_when_closed : forall s l s',
+  discover_step s l = Some s' -> d_phase s' = DStopped -> d_ctx_err s <> None.
+Proof.
+  intros s l s' H Hs. destruct (d_ctx_err s) as [c|] eqn:Ec; [discriminate|]. exfalso.
+  unfold discover_step in H. rewrite Ec in H. cbn [err_is] in H.
+  destruct (d_phase s) as [n| |] eqn:Ep; [| |discriminate];
+    destruct l as [| | | |[m|e|e]]; try discriminate;
+    inversion H; subst s'; cbn [d_phase] in Hs; congruence.
+Qed.
+
+Lemma refresh_turn_failure : forall s w r,
+  d_phase s = DWaiting -> d_ctx_err s = None -> is_failure r = true ->
+  exists s', discover_run s (refresh_turn w r) = Some s'
+             /\ d_phase s' = DWaiting /\ d_ctx_err s' = None
+             /\ (forall md, ps_meta (d_pool s) = Some md -> d_pool s' = d_pool s).
+Proof.
+  intros s w r Hp Hc Hf. unfold refresh_turn. cbn [discover_run].
+  assert (H1 : exists s1, discover_step s (if w then DWake else DTimer) = Some s1
+                          /\ (exists n, d_phase s1 = DFetching n) /\ d_ctx_err s1 = None /\ d_pool s1 = d_pool s).
+  { unfold discover_step. rewrite Hp. destruct w; eexists; (split; [reflexivity|]); cbn [d_phase d_ctx_err d_pool];
+    (split; [eexists; reflexivity|]); (split; [assumption | reflexivity]). }
+  destruct H1 as [s1 [E1 [[n Hn] [Hc1 Hpool]]]]. rewrite E1.
+  destruct r as [m|e|e]; [discriminate| |]; unfold discover_step; rewrite Hn, Hc1; cbn [err_is].
+  - eexists. split; [reflexivity|]. cbn [d_phase d_ctx_err d_pool]. split; [reflexivity|]. split; [auto|].
+    intros md Hmd. rewrite Hpool. exact (update_error_keeps (d_pool s) None e md Hmd).
+  - eexists. split; [reflexivity|]. cbn [d_phase d_ctx_err d_pool]. split; [reflexivity|]. split; [auto|].
+    intros md Hmd. rewrite Hpool. exact (update_error_keeps (d_pool s) None e md Hmd).
+Qed.
+
+(* after any number of failed or timed-out refreshes the next turn sends another request, and an
+   answered one installs the brokers' layout *)
+Theorem discover_survives_failures : forall (fs : list (bool * refresh_result)) s w m,
+  d_phase s = DWaiting -> d_ctx_err s = None ->
+  Forall (fun f => is_failure (snd f) = true) fs ->
+  exists s', discover_run s (flat_map (fun f => refresh_turn (fst f) (snd f)) fs ++ refresh_turn w (FAnswered m)) = Some s'
+             /\ d_phase s' = DWaiting /\ d_ctx_err s' = None /\ view_of m (d_pool s').
+Proof.
+  induction fs as [|[w0 r0] fs IH]; intros s w m Hp Hc F.
+  - cbn [flat_map app]. unfold refresh_turn. cbn [discover_run].
+    assert (H1 : exists s1, discover_step s (if w then DWake else DTimer) = Some s1
+                            /\ (exists n, d_phase s1 = DFetching n) /\ d_ctx_err s1 = None).
+    { unfold discover_step. rewrite Hp. destruct w; eexists; (split; [reflexivity|]); cbn [d_phase d_ctx_err d_pool];
+      (split; [eexists; reflexivity | assumption]). }
+    destruct H1 as [s1 [E1 [[n Hn] Hc1]]]. rewrite E1. unfold discover_step. rewrite Hn.
+    eexists. split; [reflexivity|]. cbn [d_phase d_ctx_err d_pool]. repeat split; auto.
+  - inversion F as [|? ? F0 F']. subst. cbn [fst snd] in F0.
+    destruct (refresh_turn_failure s w0 r0 Hp Hc F0) as [s1 [R1 [Hp1 [Hc1 _]]]].
+    cbn [flat_map fst snd]. rewrite <- app_assoc.
+    assert (Hrun : forall l1 l2 a b, discover_run a l1 = Some b -> discover_run a (l1 ++ l2) = discover_run b l2).
+    { induction l1 as [|x l1 IHl]; intros l2 a b Hab; cbn [app discover_run] in *.
+      - inversion Hab. reflexivity.
+      - destruct (discover_step a x); [apply IHl; assumption | discriminate]. }
+    rewrite (Hrun _ _ _ _ R1). apply IH; assumption.
+Qed.
 
 Lemma create_topics_forces_refresh : forall tr,
   forces_refresh (QOne (RController K_CreateTopics)) (RTSend [Sent tr]) = true.
